@@ -245,6 +245,9 @@ class H3Impl:
         return f"buf=[{b}] hr=[{hr}]"
 
     # ------------------------------------------------------------------ ops
+    #: attach a real QuicLoggerTrace to the connection under `h0.new` (set by checks/c16.py; the op line is unchanged)
+    h0_logging = False
+
     def _new(self, is_client, logging, has_dgram):
         from aioquic.h3.connection import H3Connection
         self.q = FakeQuic(is_client, logging, has_dgram)
@@ -335,7 +338,7 @@ class H3Impl:
         if op == "h0.new":
             from aioquic.h0.connection import H0Connection
             self.h0_client = t[1] == "1"
-            self.h0 = H0Connection(FakeQuic(self.h0_client))
+            self.h0 = H0Connection(FakeQuic(self.h0_client, logging=H3Impl.h0_logging))
             return "ok " + self.show_h0(), line
         if op == "h0.data":
             data = b"" if t[2] == "-" else bytes.fromhex(t[2])
